@@ -110,7 +110,8 @@ let () =
         try
           let ops = listof op in
           let y = run_history h ops in
-          (* the decidable structural guard of KEYFAITH.v (cmd_faithful + unique printed labels) on the visited snapshots *)
+          (* the decidable structural guard of KEYFAITH.v (cmd_faithful incl. the no-cache tag + unique printed labels +
+             comma-free output paths of no-cache targets) on the visited snapshots *)
           String.concat ";" (List.map show_build y.sy_log) ^ "#k=" ^ (if snaps_okb (snaps ops) then "1" else "0")
         with Failure m -> "model-error " ^ m
            | Invalid_argument m -> "model-error " ^ m in
